@@ -127,6 +127,10 @@ def o_eig(rng, n=30):
     return O.run_oracle("eig", O.gen_eig_inputs(rng, n))
 
 
+def o_large_cell(rng, n=1):
+    return O.run_oracle("large_cell", O.gen_large_cell_inputs(rng, n))
+
+
 def o_process_history(rng, n=4):
     return O.run_oracle("process_history", O.gen_process_history_inputs(rng, n))
 
@@ -298,7 +302,10 @@ PROPS = {
                     "quick": {"n": 3, "order": 3, "dets": (6, 8, 12)}, "thorough": {"n": 12, "order": 3, "dets": (6, 8, 9, 12)},
                     "search": {"n": 8, "order": 3, "dets": (6, 8, 9, 12)}},
                    {"name": "fit_perm", "fn": o_fit("normal_equations"), "quick": {"n": 3}, "thorough": {"n": 12},
-                    "search": {"n": 12}}],
+                    "search": {"n": 12}},
+                   # >= 41 atoms at order 3: the flat tensor index needs more than 16 bits (not in the quick tier: ~15 s a case)
+                   {"name": "large_cell_index_width", "fn": o_large_cell, "quick": {"n": 0}, "thorough": {"n": 1},
+                    "search": {"n": 2}}],
         "trusted": [KERNELS["numpy"], KERNELS["float"]],
     },
     "C02": {
